@@ -5,7 +5,7 @@ CONSTANTS
   MaxK = 3
   FKinds = {"err", "skip", "eof"}
   MaxFaults = 2
-  OptSet <- OptsCore
+  OptSet <- OptsCont4
   AbortCancels = TRUE
   GenChecksCtx = TRUE
   ResolverSame = TRUE
